@@ -469,11 +469,65 @@ def check_program(ctx, idx, prev):
                         pass
                     else:
                         ctx.viol(None, "cross-options", f"scene of the program compiled with {over} decoded by the plain compile: outcome {out}", {**W, "variant": name, "reverse": True})
+    # ---- scenario conditioned after compilation (Scenario.conditionOn): encoder and decoder must still agree
+    if first_data is not None:
+        check_conditioned(ctx, prog, idx, W, rng)
     if {"rt", "trunc", "corr"} <= did:
         from rt import su
 
         ctx.res["nontrivial"].append(su.h(prog["text"]))
     return (sc, first_data, idx) if first_data is not None else prev
+
+
+def check_conditioned(ctx, prog, idx, W, rng):
+    """Fix one object of a freshly compiled scenario to its value in a sampled scene (conditionOn), then
+    round-trip new scenes (and a simulation) of the conditioned scenario."""
+    lib = ctx.lib
+    try:
+        scc = compile_prog(prog)
+    except Exception:
+        return
+    sceneA = gen_scene(scc, ctx.seed, idx, 70)
+    if sceneA is None or not sceneA.objects:
+        ctx.skip("conditioned_no_scene")
+        return
+    which = rng.randrange(len(sceneA.objects))
+    try:
+        scc.conditionOn(scene=sceneA, objects=(which,))
+    except Exception as e:
+        ctx.skip("conditionOn_raised:" + type(e).__name__)
+        return
+    for k in (71, 72):
+        scene = gen_scene(scc, ctx.seed, idx, k)
+        if scene is None:
+            ctx.skip("conditioned_scene_generation_rejected")
+            continue
+        out, data = guarded(lambda: scc.sceneToBytes(scene))
+        if inconclusive(ctx, out, "cond-encode"):
+            continue
+        if out != "ok":
+            ctx.viol(None, "conditioned-encode", f"sceneToBytes of a conditioned scenario (object {which} fixed) raised {type(data).__name__}: {data}", {**W, "k": k, "conditioned": which})
+            continue
+        out, scene2 = guarded(lambda: scc.sceneFromBytes(data))
+        ctx.bump("conditioned_roundtrips")
+        if inconclusive(ctx, out, "cond-roundtrip"):
+            continue
+        if out != "ok":
+            ctx.viol(None, "conditioned-roundtrip", f"sceneFromBytes of an intact encoding of a conditioned scenario (object {which} fixed) raised {type(scene2).__name__}: {scene2}", {**W, "k": k, "conditioned": which})
+            continue
+        d1, d2 = lib.dump_scene(scene), lib.dump_scene(scene2)
+        if d1 != d2:
+            diff = lib.first_diff(d1, d2)
+            key = None
+            if has_mutation(scene) and any(f".{p}" in diff.split(":")[0] for p in MUT_PROPS):
+                key = "mutate.noise-not-serialized"
+            ctx.viol(key, "conditioned-roundtrip-dump", f"conditioned scenario: decoded scene differs at {diff}", {**W, "k": k, "conditioned": which})
+        else:
+            ctx.bump("conditioned_roundtrip_equal")
+        if prog["dynamic"] and k == 71:
+            # the full replay battery of check_simulation on the conditioned scenario
+            check_simulation(ctx, prog, scc, scene, data, idx, k, has_mutation(scene), rng)
+            ctx.bump("conditioned_sim_batteries")
 
 
 def check_simulation(ctx, prog, sc, scene, scene_data, idx, k, mutated, rng):
